@@ -523,6 +523,11 @@ def annotate_closures(body, closures, unit):
         st, pe, bs, be, params = found[k]
         c = closures[k]
         src = body[bs:be]
+        # a sidecar may give alternatives for a closure (`alts`): the neighbouring idioms of the statement it belongs to, each with its own types and contract
+        for alt in c.get('alts', ()):
+            if norm_ws(params) == norm_ws(alt['params']):
+                c = alt
+                break
         if norm_ws(params) != norm_ws(c['params']):
             # R30b: the same parameter pattern with other identifiers is alpha-renamed to the sidecar's names (capture-free: a new name must not occur in the closure already)
             ids_src = re.findall(r'[A-Za-z_]\w*', params)
